@@ -305,6 +305,14 @@ class Contract:
             f = formula(f)
             c.callsite_obligations.append(("pre[%d]@%s" % (i, self.name), list(P.hyps()), f))
             P.assume(f)
+        # a RECURSIVE call of the function under verification may only rely on its own contract if a measure
+        # decreases (total correctness): otherwise "raises ValueError for k < 0" would be assumed of a call that in
+        # fact never returns
+        em = getattr(c, "entry_measure", None)
+        if em is not None and getattr(world, "target", None) == self.target and hasattr(self, "measure"):
+            mn = term(self.measure(c, *args, **kwargs))
+            f = z3.And(mn >= 0, mn < term(em))
+            c.callsite_obligations.append(("pre[decreases]@%s" % self.name, list(P.hyps()), f))
         for exc, cond in self.raises(c, *args, **kwargs):
             if P.decide(formula(cond)):
                 raise exc("raised by contract of " + self.name)
